@@ -278,12 +278,11 @@ example :
 def ParseRenderAll : Prop :=
   ∀ i : Inst, extractInst false true (renderInst opText i) = .ok i
 
-/-- an instruction whose destination is register `R32` (SASS has R0…R254) -/
-def regWitness : Inst := { pc := 16, mask := 1, destNum := 1, dst := ["R32".toList], op := some "MOV".toList, srcNum := 1, src := ["R2".toList] }
+/-- an instruction whose destination is `R256`, which is no SASS register (SASS has R0…R254 and the zero register R255) -/
+def regWitness : Inst := { pc := 16, mask := 1, destNum := 1, dst := ["R256".toList], op := some "MOV".toList, srcNum := 1, src := ["R2".toList] }
 
-/-- **"registers from the register table" cannot be dropped, and the table is too small**: the serialised
-    line `0010 00000001 1 R32 MOV 1 R2 0 0` is not parsed back — `NewRegister` panics on every register
-    other than R0…R31 and R255 (listed as finding `C20-register-table`; reproduced on `extractInst`). -/
+/-- **"registers from the register table" cannot be dropped**: the serialised line
+    `0010 00000001 1 R256 MOV 1 R2 0 0` is not parsed back — `NewRegister` panics on a name outside the table. -/
 theorem parse_render_all_refuted : ¬ ParseRenderAll := by
   intro h
   have := h regWitness
@@ -293,7 +292,29 @@ theorem parse_render_all_refuted : ¬ ParseRenderAll := by
   revert this
   decide
 
-example : renderInst opText regWitness = "0010 00000001 1 R32 MOV 1 R2 0 0".toList ∧
+example : renderInst opText regWitness = "0010 00000001 1 R256 MOV 1 R2 0 0".toList ∧
     (extractToks false true (renderToks (opText regWitness) regWitness)).toOption = none := by decide
+
+/-- **The register table is complete** (finding `C20-register-table`, repaired): every SASS register name `R0` … `R255`
+    is in the table, and nothing else — so the hypothesis `dst_known` / `src_known` of `parse_render` says exactly
+    "the operands are SASS registers". -/
+theorem register_table_complete :
+    (∀ i < 256, knownReg ('R' :: showNat 10 i) = true) ∧ regNames.length = 256 ∧ knownReg "R256".toList = false := by
+  refine ⟨by decide +kernel, by decide +kernel, by decide +kernel⟩
+
+/-- the instruction that could not be read before the repair: destination `R32` -/
+def r32Witness : Inst := { pc := 16, mask := 1, destNum := 1, dst := ["R32".toList], op := some "MOV".toList, srcNum := 1, src := ["R2".toList] }
+
+/-- **before the repair** the table held R0…R31 and R255 only: `R32` … `R254` were unknown, the serialised line
+    `0010 00000001 1 R32 MOV 1 R2 0 0` (any kernel using more than 32 registers) made `extractInst` panic; now it is
+    parsed back -/
+theorem register_table_too_small_before_fix :
+    regNamesOld.contains "R32".toList = false ∧ regNamesOld.contains "R254".toList = false ∧
+    renderInst opText r32Witness = "0010 00000001 1 R32 MOV 1 R2 0 0".toList ∧
+    (extractInst false true (renderInst opText r32Witness)).toOption = some r32Witness := by
+  refine ⟨by decide, by decide, by decide, ?_⟩
+  unfold extractInst renderInst
+  rw [splitTokens_joinSp _ (by decide) (by decide)]
+  decide +kernel
 
 end C20
